@@ -29,3 +29,15 @@ Example C15_example :
   filter_ids (fun i => negb (String.eqb i "b")) ["c"; "b"; "a"] = ["c"; "a"] /\ check_id ["c"; "a"] "b" = false.
 Proof. vm_compute. auto. Qed.
 Print Assumptions C15_example.
+
+(* BEGIN PINNED FINGERPRINTS (tools/pin_shapes.py) *)
+(* The functions and classes of /repo that hand-written parts of the model mirror (Model/VM.v, NameLevel.v, Loopback.v) and the glue around the modelled core
+   this property is anchored in: the fingerprints (sha256 of the normalised source, comments and docstrings dropped) are regenerated on every run; an edit of one
+   of them re-opens this property even if no sampled case shows a difference.  Rewritten by tools/pin_shapes.py on a tree on which every check passes. *)
+From Connectome Require GlueFilterGen.
+Theorem C15_mirrored_functions_are_the_pinned_ones :
+  GlueFilterGen.shape_class_Filter = "e202343ff78dfd1d" /\
+  GlueFilterGen.shape_class_CheckIds = "a921031238182021".
+Proof. repeat split; reflexivity. Qed.
+Print Assumptions C15_mirrored_functions_are_the_pinned_ones.
+(* END PINNED FINGERPRINTS *)
